@@ -45,7 +45,9 @@ fn acts(n: &Node, thorough: bool, jumps: &[u64]) -> Vec<Action> {
             return vec![Action::Open];
         }
         let next_h = m.height + 1;
-        let near_boundary = next_h % 200_000 == 199_999 || next_h % 200_000 == 0;
+        // (on the legacy networks the blocks around height 900000, where the lock rule comes into force, are opened honestly too)
+        let legacy = matches!(m.network, NetID::Mainnet | NetID::Testnet);
+        let near_boundary = next_h % 200_000 == 199_999 || next_h % 200_000 == 0 || (legacy && (899_998..=900_001).contains(&next_h));
         let stake_in_this_block = m.block_txs.values().any(|t| t.kind == TxKind::Stake);
         let mut v = vec![];
         if near_boundary || stake_in_this_block {
@@ -192,6 +194,29 @@ pub fn run(run: &Run) {
         run.set(&format!("scenario:{}", name), json!({"depth_bound_completed": st.depth_completed, "unique_states": st.states, "transitions": st.transitions, "frontier_sizes": st.frontier_sizes}));
         println!("  scenario {}: depth {} states {} transitions {}", name, st.depth_completed, st.states, st.transitions);
     }
+    // testnet across height 900000, where the lock rule comes into force: stakes made shortly before it are locked from 900000 on
+    {
+        let (_w, rootn) = root(NetID::Testnet, 0, true);
+        let eng = Engine::new(run);
+        let mut node = Some(rootn);
+        for a in [Action::Jump(498), Action::Open, Action::Seal(None), Action::Open, Action::Seal(None), Action::Jump(899_995)] {
+            node = match node.as_ref().map(|n| eng.step(n, &a)) {
+                Some(StepOut::Next(x)) => Some(x),
+                _ => None,
+            };
+        }
+        match node {
+            Some(start) => {
+                let j = vec![999_998u64];
+                let a = move |n: &Node| acts(n, false, &j);
+                let visit = |n: &Node| check_votes(run, n);
+                let st = bfs(&eng, vec![start], if thorough { 18 } else { 14 }, 300_000, &a, &visit);
+                run.set("scenario:testnet-across-900000", json!({"depth_bound_completed": st.depth_completed, "unique_states": st.states, "transitions": st.transitions}));
+                println!("  scenario testnet-across-900000: depth {} states {} transitions {}", st.depth_completed, st.states, st.transitions);
+            }
+            None => run.outcome("testnet-across-900000:prefix-not-accepted"),
+        }
+    }
     // mainnet / testnet above the grandfathered windows: fabricated at 900000 (rules below 500000 / 900000 are excluded by the statement's reading)
     for net in [NetID::Mainnet, NetID::Testnet] {
         if !thorough && net == NetID::Testnet {
@@ -232,7 +257,7 @@ pub fn run(run: &Run) {
     }
     run.set("stake_documents", json!("(e_start, e_post_end) over {cur-1..cur+2} x {cur-1..cur+3} (quick: {cur,cur+1} x {cur+1,cur+2}), amount == / != first output, first output SYM / MEL, truncated / trailing-byte / empty document"));
     run.set("epoch_boundaries_by_jump", json!(jumps));
-    run.set("excluded", json!("mainnet/testnet below height 900000 (the code grandfathers historical rules there); fabricating those networks above 900000 would need a TIP-906-consistent tree, which the jump cannot produce from a low-height state"));
+    run.set("excluded", json!("mainnet histories (no faucet can fund a SYM wallet there); testnet is covered across height 900000, where the lock rule comes into force, by the scenario testnet-across-900000 (the reference model carries the legacy windows: no stake registration rules below 500000, no lock below 900000)"));
     run.sample(json!({"path": ["genesis[Custom02]", "open", "stake(start=1,end=2)", "seal(None)", "jump(399998)", "open", "seal(None)", "open", "spend(staked coin)"], "oracle": "rejected while epoch <= end, accepted in the first block of epoch end+1; votes(e,k) = sum of registered stakes with start <= e < end; stakes_hash = root of the registered, unexpired stakes"}));
     run.assume("epoch boundaries are reached by re-labelling the sealed content at the boundary height with from_block (Jump)");
 }
